@@ -30,7 +30,7 @@ type WriterCfg struct {
 	PayPow2        bool   `json:"pay_pow2"`  // WriteBinary payloads live in buffers of power-of-two capacity
 	RichSink       bool   `json:"sink_has_WriteString_ReadFrom,omitempty"`
 	SinkFlushFails bool   `json:"sink_flush_method_fails,omitempty"` // (RichSink) the sink's own Flush method returns an error; a writer that chooses to call it has a failed flush
-	SinkMode       int    `json:"sink_mode,omitempty"`               // how the sink fails: 0 (0,err); 1 (len,err); 2 (len/2, timeout error)
+	SinkMode       int    `json:"sink_mode,omitempty"`               // how the sink fails: 0 (0,err); 1 (len,err); 2 (len/2, timeout error); 3 (0, an error value made by the library itself)
 	Warm           int    `json:"warm,omitempty"`                    // (Malloc(1), Flush) cycles performed before the history starts (size-statistics ring wraps at 10)
 }
 
@@ -203,8 +203,8 @@ func (s *writerSys) Apply(op int, check bool) (what, sig string) {
 		}
 		if err == nil {
 			fail("error-not-sticky", "the sink failed earlier but this call returned a nil error")
-		} else if !errors.Is(err, errSink) {
-			fail("error-not-sticky", "the sink failed earlier with %q but this call returned %q", errSink, err)
+		} else if !errors.Is(err, s.sink.Err()) {
+			fail("error-not-sticky", "the sink failed earlier with %q but this call returned %q", s.sink.Err(), err)
 		}
 	}
 	pi := mc.Try(func() {
@@ -296,7 +296,7 @@ func (s *writerSys) Apply(op int, check bool) (what, sig string) {
 			}
 			if s.sink != nil {
 				willFail := s.sink.FailAt > 0 && s.sink.Calls >= s.sink.FailAt
-				if !willFail && err != nil && s.sink.FlushFails && s.sink.FlushCalls > 0 && errors.Is(err, errSink) {
+				if !willFail && err != nil && s.sink.FlushFails && s.sink.FlushCalls > 0 && errors.Is(err, s.sink.Err()) {
 					// the writer chose to call the sink's own Flush method, which failed: a failed flush like any other (the
 					// bytes had been written to the sink before)
 					willFail = true
@@ -304,8 +304,8 @@ func (s *writerSys) Apply(op int, check bool) (what, sig string) {
 				if willFail {
 					if err == nil {
 						fail("sink-error-lost", "the sink rejected the write but Flush returned nil")
-					} else if !errors.Is(err, errSink) {
-						fail("sink-error-lost", "the sink failed with %q but Flush returned %q", errSink, err)
+					} else if !errors.Is(err, s.sink.Err()) {
+						fail("sink-error-lost", "the sink failed with %q but Flush returned %q", s.sink.Err(), err)
 					}
 					s.failed = true
 					// A flush may reach the sink in one Write or in several; whatever the sink accepted before and in the failing
